@@ -50,6 +50,11 @@ def classify(check, results, table):
     for m, t, r in results:
         check.count()
         check.distinct((m["family"], m["i"], m["layout"], m["ver"]))
+        if str(r.get("panic") or "").startswith("verif: node of unknown kind"):
+            # the returned tree holds an object that is none of pkg/ast's node kinds (a parser-internal helper left in place)
+            check.violation({"class": "foreign-node-kind", "family": m["family"], "got": str(r["panic"]).split(" ")[-1]},
+                            {"src": t["src"], "ver": m["ver"], "observed": r["panic"], "variants": m["used"]})
+            continue
         if r.get("panic") or r.get("hang") or r.get("crash"):
             continue                   # C01's business
         sig_used = [u for u in m["used"]]
